@@ -124,7 +124,8 @@ func sortRow[T any](name string, g gen, f func([]T)) row {
 
 func taggedKeys(rng *rand.Rand, _ []any) any {
 	// value = key*100 + tag; tags are unique per element so stability is observable
-	n := rng.Intn(14)
+	// (up to 60 elements: Go's own unstable sort is an insertion sort, hence stable, below 13)
+	n := rng.Intn(60)
 	out := make([]int, n)
 
 	for i := range out {
